@@ -17,6 +17,7 @@ arrays).
 from __future__ import annotations
 
 import collections.abc
+import copy
 import typing
 
 import numpy
@@ -2162,6 +2163,13 @@ def array(*args: typing.Any, **kwargs: typing.Any) -> VectorNumpy:
         cls = MomentumNumpy3D if is_momentum else VectorNumpy3D
     else:
         cls = MomentumNumpy2D if is_momentum else VectorNumpy2D
+
+    # the momentum classes rename the fields of their dtype in place:
+    # never hand them the caller's own dtype object
+    if isinstance(kwargs.get("dtype"), numpy.dtype):
+        kwargs["dtype"] = copy.copy(kwargs["dtype"])
+    elif len(args) >= 2 and isinstance(args[1], numpy.dtype):
+        args = (args[0], copy.copy(args[1]), *args[2:])
 
     return cls(*args, **kwargs)
 
